@@ -481,6 +481,9 @@ func okParamList(nodes []ast.Node) (*token.Token, bool) {
 	log.Debugf("okParamList: %d: %#v", l, nodes)
 	for i, n := range nodes {
 		last := i == l-1
+		if n == nil { // a parameter that failed to parse (its own error is already recorded)
+			return nil, false
+		}
 		t := n.Value()
 		if last && t.Type() == token.DOTDOT {
 			return t, true
@@ -502,9 +505,13 @@ func (p *Parser) parseLambdaMulti(left ast.Node, more ...ast.Node) ast.Node {
 	}
 	t, ok := okParamList(lambda.Parameters)
 	if !ok {
+		got := "an invalid expression"
+		if t != nil {
+			got = t.Literal()
+		}
 		errLine, lineNum := p.ErrorLine(false)
 		p.errors = append(p.errors, fmt.Sprintf("%d: lambda parameters must be identifiers, not %s\n%s",
-			lineNum, t.Literal(), errLine))
+			lineNum, got, errLine))
 		return nil
 	}
 	if t != nil {
